@@ -81,6 +81,11 @@ def generate(ctx):
         recs += edge
         # overlapping records of one query must still agree: rebuild from a per-query truth is skipped; drop conflicts
         from_file = rng.random() < 0.6
+        if from_file and edge and rng.random() < 0.3:
+            # the reference strain itself among the aligned genomes (QNAME = the ID of the -r record): no row for it, in either
+            # command.  (With the reference taken from the annotation there is no record of that name to confuse it with, and
+            # `variants`, which finds its reference by name, cannot be given the same alignment: not generated.)
+            edge[0]["name"] = "REF"
         # -r given as a file whose sequence is NOT the one embedded in the annotation (a lineage / masked reference with
         # the same coordinates): the file is the reference for both commands
         genome_anno = genome
@@ -175,6 +180,17 @@ def post_go(ctx, cases, obs):
                 plan2.append(("pad", c, nid))
                 nid += 1
     res2 = cm.go_run(stage2, ctx.log) if stage2 else {}
+    pair_names = {}
+    for kind, c, sid in plan2:
+        if kind == "pair" and res2[sid]["status"] == "ok":
+            pair_names.setdefault(c["id"], set()).update(n for n, _ in anno.parse_rows(cm.unb64(res2[sid]["out"]))[1])
+    for c in cases:
+        if c["id"] in pair_names and obs[c["id"]]["status"] == "ok":
+            extra_rows = [n for n, _ in anno.parse_rows(cm.unb64(obs[c["id"]]["out"]))[1] if n not in pair_names[c["id"]]]
+            if extra_rows:
+                c["sample"].setdefault("oracle_problems", []).append("sam variants has a row for %r; variants on the toPairAlign pairs reports no such row" % extra_rows)
+                if c not in bad:
+                    bad.append(c)
     for kind, c, sid in plan2:
         o = res2[sid]
         sv = dict(anno.parse_rows(cm.unb64(obs[c["id"]]["out"]))[1])
